@@ -35,6 +35,9 @@ def make_transform(rng, gd, kind):
     elif kind == "rotate_labels":
         rot = labs[1:] + labs[:1]
         perm, shuffle, ren = list(range(n)), None, dict(zip(labs, rot))
+    elif kind == "reverse_alphabet":
+        srt = sorted(labs)
+        perm, shuffle, ren = list(range(n)), None, dict(zip(srt, srt[::-1]))
     else:
         perm = games.random_perm(rng, n)
         shuffle = rng.choice([None, "random", "random", "reverse"])
@@ -84,6 +87,22 @@ def compare(gd, gd2, tf, out, out2, prune, an):
     if s1 != "ok":
         return problems, known, stats
     r1, r2 = out.result, out2.result
+    if tf["kind"] in ("rotate_labels", "reverse_alphabet") and not tf["shuffle"] and tf["perm"] == list(range(n)):
+        # renaming only: numbering and transition order are untouched, so the computation must be the same one step for
+        # step - every numeric output identical (==), iteration counts included; strategies equal up to the renaming
+        stats["rename_only_pairs"] = 1
+        for i, nm in ((2, "expected rewards"), (3, "probabilities"), (4, "reachability iterations"), (5, "reward iterations"),
+                      (6, "probabilities under minimal reward"), (7, "rewards under minimal reachability")):
+            if r1[i] != r2[i]:
+                problems.append({"problem": "renaming the actions changed the reported %s" % nm, "g": repr(r1[i])[:200], "g2": repr(r2[i])[:200]})
+        for i, nm in ((0, "final"), (1, "reachability")):
+            for s in range(n):
+                if gd["players"][s] != PR and r2[i][s] != [ren.get(a, a) for a in r1[i][s]]:
+                    problems.append({"state": s, "problem": "renaming the actions changed the %s strategy beyond the renaming" % nm,
+                                     "g": r1[i][s], "g2": r2[i][s]})
+                    break
+        if problems:
+            return problems, known, stats
     stopping = an.stopping
     T = [float(t) for t in an.tmax] if stopping else None
     if T is None:
@@ -266,7 +285,7 @@ def decide(gd, idx, cls, tier, rng, tfs=None):
         return res
     if tfs is None:
         k = 4 if tier == "quick" else 12
-        tfs = [make_transform(rng, gd, kd) for kd in ["reverse_numbering", "reverse_lists", "rotate_labels"] + ["random"] * k]
+        tfs = [make_transform(rng, gd, kd) for kd in ["reverse_numbering", "reverse_lists", "rotate_labels", "reverse_alphabet"] + ["random"] * k]
     base = {p: monitors.observed_solve(games.to_solver(gd), p, limit) for p in (True, False)}
     problems, known = [], []
     for tf in tfs:
